@@ -7,8 +7,8 @@ import subprocess
 import sys
 
 VERIF = os.path.dirname(os.path.dirname(os.path.dirname(os.path.abspath(__file__))))
-REL = {"C01": ["C01", "C08", "C19"], "C03": ["C03", "C05", "C11"], "C04": ["C04", "C11", "C14", "C18"], "C05": ["C05"], "C06": ["C06", "C04", "C19"], "C07": ["C07", "C06"], "C08": ["C08", "C01", "C19"],
-       "C09": ["C09", "C18"], "C11": ["C11", "C12"], "C15": ["C15", "C04", "C11"], "C19": ["C19"], "C20": ["C20", "C18"], "C02": ["C02"], "C10": ["C10", "C18"], "C12": ["C12", "C10"],
+REL = {"C01": ["C01", "C08", "C19"], "C03": ["C03", "C05", "C11"], "C04": ["C04", "C11", "C14", "C18"], "C05": ["C05", "C04", "C14"], "C06": ["C06", "C04", "C19"], "C07": ["C07", "C06"], "C08": ["C08", "C01", "C19", "C03"],
+       "C09": ["C09", "C18"], "C11": ["C11", "C12"], "C15": ["C15", "C04", "C11"], "C19": ["C19", "C04", "C14"], "C20": ["C20", "C18"], "C02": ["C02"], "C10": ["C10", "C18"], "C12": ["C12", "C10"],
        "C13": ["C13"], "C14": ["C14", "C05", "C04"], "C16": ["C16"], "C17": ["C17", "C02"], "C18": ["C18"]}
 own_only = "--own-only" in sys.argv  # re-run only the check of the seed's own property, record it as `final_own`
 only = [a for a in sys.argv[1:] if not a.startswith("--")]
